@@ -30,6 +30,11 @@ def run(m: Model, r: Report, tier: str) -> None:
     r.rule("R4", "ack timeout => close => BrokenPipeError (DoIP and HSFZ)", floor=4)
     r.rule("R5", "reconnect protocol: close, then connect until the timeout, retrying on any ConnectionError; the client adopts the new transport", floor=6)
     r.rule("R6", "close() is idempotent: a closed flag is set before the first await, or the body only uses idempotent primitives", floor=6)
+    r.rule("R8", "a frame cut short by the peer is never delivered: both frame readers take every part of a frame with readexactly (a short read raises "
+           "IncompleteReadError instead of returning a truncated payload)", floor=4)
+    import struct as _struct
+    tr.consumption(m, r, "R8", m.require_function(f"{DOIP}.DoIPConnection._read_frame"), _struct.calcsize("!BBHL"))
+    tr.consumption(m, r, "R8", m.require_function(f"{HSFZ}.HSFZConnection._read_frame"), _struct.calcsize("!IH"))
     r.rule("R7", "the client turns connection loss into MissingResponse with cause, reconnects if retries remain, and maps an empty read to a connection error", floor=4)
 
     cg = CallGraph(m)
@@ -111,6 +116,8 @@ def run(m: Model, r: Report, tier: str) -> None:
     tr.ack_timeout_handler(m, r, "R4", m.require_function(f"{HSFZ}.HSFZConnection.write_diag_request_raw"), "self._read_ack")
 
     tr.hsfz_ack_timeout_units(m, r, "R4")
+    if tr.doip_timing_units(m, r, "R4") < 2:
+        raise AnalysisError("DoIP waits derived from TimingAndCommunicationParameters not found")
 
     # ---------------------------------------------------------------- R5
     rc = m.require_function(f"{BASE}.BaseTransport.reconnect")
